@@ -108,15 +108,51 @@ impl BlocksTransactionsImporter for NoImport {
     }
 }
 
+/// Observability glue around the signer's real adapter (`SignerChainDataImporter`): remembers
+/// whether the import step of `compute_protocol_message` failed, so that an import failure can be
+/// told apart from a failure of the root computation (e.g. "empty MMR" when nothing is certifiable
+/// yet, which every honest node reports alike).
+struct RecordingImporter {
+    inner: SignerChainDataImporter,
+    last_error: Arc<Mutex<Option<String>>>,
+}
+#[async_trait]
+impl TransactionsImporter for RecordingImporter {
+    async fn import(&self, b: BlockNumber) -> StdResult<()> {
+        let r = TransactionsImporter::import(&self.inner, b).await;
+        *self.last_error.lock().unwrap() = r.as_ref().err().map(|e| format!("{e:#}"));
+        r
+    }
+}
+#[async_trait]
+impl BlocksTransactionsImporter for RecordingImporter {
+    async fn import(&self, b: BlockNumber) -> StdResult<()> {
+        let r = BlocksTransactionsImporter::import(&self.inner, b).await;
+        *self.last_error.lock().unwrap() = r.as_ref().err().map(|e| format!("{e:#}"));
+        r
+    }
+}
+
+/// outcome of `compute_protocol_message` of a real builder wired to the real importer
+pub struct Signed {
+    /// Some(error) when the import step failed
+    pub import_error: Option<String>,
+    /// the Merkle root offered, or "error: ..." when the root computation failed
+    pub root: String,
+}
+
 pub struct Sut {
     pub path: PathBuf,
+    #[allow(dead_code)]
     pub cfg: SutConfig,
+    #[allow(dead_code)]
     pub repo: Arc<SignerCardanoChainDataRepository>,
     pub importer: Arc<dyn ChainDataImporter>,
     pub reader: Arc<tokio::sync::Mutex<ModelChainReader>>,
     pub log: Arc<Mutex<ReaderLog>>,
     pub script: Arc<Mutex<Option<MidImportReorg>>>,
     pub pruner: Arc<RecordingPruner>,
+    last_import_error: Arc<Mutex<Option<String>>>,
     legacy_real: Arc<dyn SignableBuilder<BlockNumber>>,
     v2_real: Arc<dyn SignableBuilder<(BlockNumber, BlockNumberOffset)>>,
     legacy_query: Arc<dyn SignableBuilder<BlockNumber>>,
@@ -159,7 +195,8 @@ impl Sut {
                 importer = Arc::new(ChainDataImporterByChunk::new(repo.clone(), importer, BlockNumber(chunk), logger()));
             }
         }
-        let adapter = Arc::new(SignerChainDataImporter::new(importer.clone()));
+        let last_import_error = Arc::new(Mutex::new(None));
+        let adapter = Arc::new(RecordingImporter { inner: SignerChainDataImporter::new(importer.clone()), last_error: last_import_error.clone() });
         let (legacy_real, v2_real): (Arc<dyn SignableBuilder<BlockNumber>>, Arc<dyn SignableBuilder<(BlockNumber, BlockNumberOffset)>>) =
             if cfg.sqlite_mktree {
                 (
@@ -176,18 +213,30 @@ impl Sut {
             Arc::new(CardanoTransactionsSignableBuilder::<MKTreeStoreInMemory>::new(Arc::new(NoImport), repo.clone()));
         let v2_query: Arc<dyn SignableBuilder<(BlockNumber, BlockNumberOffset)>> =
             Arc::new(CardanoBlocksTransactionsSignableBuilder::<MKTreeStoreInMemory>::new(Arc::new(NoImport), repo.clone()));
-        Ok(Sut { path: path.to_path_buf(), cfg: cfg.clone(), repo, importer, reader, log, script, pruner, legacy_real, v2_real, legacy_query, v2_query })
+        Ok(Sut { path: path.to_path_buf(), cfg: cfg.clone(), repo, importer, reader, log, script, pruner, last_import_error, legacy_real, v2_real, legacy_query, v2_query })
     }
 
-    /// import through the real legacy signable builder; returns the Merkle root it offers
-    pub async fn sign_legacy(&self, beacon: u64) -> StdResult<String> {
-        let m = self.legacy_real.compute_protocol_message(BlockNumber(beacon)).await?;
-        Ok(m.get_message_part(&ProtocolMessagePartKey::CardanoTransactionsMerkleRoot).cloned().unwrap_or_default())
+    /// import + root through the real legacy signable builder (what a signer does at a beacon)
+    pub async fn sign_legacy(&self, beacon: u64) -> Signed {
+        *self.last_import_error.lock().unwrap() = None;
+        let r = self.legacy_real.compute_protocol_message(BlockNumber(beacon)).await;
+        let import_error = self.last_import_error.lock().unwrap().take();
+        let root = match r {
+            Ok(m) => m.get_message_part(&ProtocolMessagePartKey::CardanoTransactionsMerkleRoot).cloned().unwrap_or_default(),
+            Err(e) => format!("error: {e}"),
+        };
+        Signed { import_error, root }
     }
-    /// import through the real v2 signable builder; returns the Merkle root it offers
-    pub async fn sign_v2(&self, beacon: u64) -> StdResult<String> {
-        let m = self.v2_real.compute_protocol_message((BlockNumber(beacon), BlockNumberOffset(0))).await?;
-        Ok(m.get_message_part(&ProtocolMessagePartKey::CardanoBlocksTransactionsMerkleRoot).cloned().unwrap_or_default())
+    /// import + root through the real v2 signable builder
+    pub async fn sign_v2(&self, beacon: u64) -> Signed {
+        *self.last_import_error.lock().unwrap() = None;
+        let r = self.v2_real.compute_protocol_message((BlockNumber(beacon), BlockNumberOffset(0))).await;
+        let import_error = self.last_import_error.lock().unwrap().take();
+        let root = match r {
+            Ok(m) => m.get_message_part(&ProtocolMessagePartKey::CardanoBlocksTransactionsMerkleRoot).cloned().unwrap_or_default(),
+            Err(e) => format!("error: {e}"),
+        };
+        Signed { import_error, root }
     }
     /// root offered at `beacon` from what is stored now (no import)
     pub async fn root_legacy(&self, beacon: u64) -> String {
